@@ -93,3 +93,64 @@ Example C07_example :
   (exists e, compile_builder N ex_conv kv_isort 2 3 [1; 9; 2] stream = Err e).
 Proof. exact compile_example. Qed.
 Print Assumptions C07_example.
+
+(* ---- on the BYTES of the data file.  read_file (Model/LineReader.v) is the line reader of parse():
+   bufio.ScanLines tokens (split at LF, one trailing CR dropped), leading BLANKS removed - nothing
+   else, in particular no TAB in front and no byte at the end of the line -, lines shorter than two
+   bytes and lines starting with '#' skipped; conv is applied to exactly these lines.
+   file_records conv accum feature data = records of (read_file data). *)
+From DnsV Require Import Model.LineReader Proofs.LineReader.
+
+Theorem C07_file_builder_lossless : forall conv accum feature sort, sort_ok sort -> forall min_size nb data stream,
+  1 <= min_size -> (1 <= nb)%nat -> feature <> [] -> accepted bytes conv (read_file data) = true ->
+  kvs_ok (file_records conv accum feature data) -> Permutation stream (file_records conv accum feature data) ->
+  exists db, compile_file_builder conv sort min_size nb data stream = Ok db /\ store_ok db /\
+             forall k, Permutation (vals db k) (vals_of k (file_records conv accum feature data)).
+Proof. exact file_builder_lossless. Qed.
+Print Assumptions C07_file_builder_lossless.
+
+Theorem C07_file_batches_lossless : forall conv accum feature sort, sort_ok sort -> forall bs data stream order,
+  accepted bytes conv (read_file data) = true -> kvs_ok (file_records conv accum feature data) ->
+  Permutation stream (file_records conv accum feature data) -> Permutation order (batches bs stream) ->
+  exists db, compile_file_batches conv sort data order = Ok db /\ store_ok db /\
+             forall k, Permutation (vals db k) (vals_of k (file_records conv accum feature data)).
+Proof. exact file_batches_lossless. Qed.
+Print Assumptions C07_file_batches_lossless.
+
+Theorem C07_file_cdb_lossless : forall conv accum feature data stream,
+  accepted bytes conv (read_file data) = true -> Permutation stream (file_records conv accum feature data) ->
+  compile_file_cdb conv data stream = Ok stream /\
+  forall k, Permutation (vals_of k stream) (vals_of k (file_records conv accum feature data)).
+Proof. exact file_cdb_lossless. Qed.
+Print Assumptions C07_file_cdb_lossless.
+
+(* a scanner line that, with its leading blanks removed, is kept and rejected by the codec - e.g. a
+   record line with a TAB in front - fails every compiler under every setting *)
+Theorem C07_file_reject_is_total : forall conv data raw e,
+  In raw (scan_lines data) -> line_kept (trim_left_blanks raw) = true -> conv (trim_left_blanks raw) = Err e ->
+  (forall sort min_size nb stream, exists e', compile_file_builder conv sort min_size nb data stream = Err e') /\
+  (forall sort order, exists e', compile_file_batches conv sort data order = Err e') /\
+  (forall stream, exists e', compile_file_cdb conv data stream = Err e').
+Proof. exact file_reject_is_total. Qed.
+Print Assumptions C07_file_reject_is_total.
+
+(* the reader removes leading blanks and nothing else; a line not starting with a blank passes unchanged *)
+Theorem C07_reader_trims_leading_blanks_only : forall l, exists n,
+  l = repeat 32 n ++ trim_left_blanks l /\
+  match trim_left_blanks l with c :: _ => c <> 32 | [] => True end.
+Proof. exact trim_left_blanks_spec. Qed.
+Print Assumptions C07_reader_trims_leading_blanks_only.
+
+Theorem C07_reader_lines : forall data l, In l (read_file data) <->
+  exists raw, In raw (scan_lines data) /\ l = trim_left_blanks raw /\ line_kept l = true.
+Proof. exact read_file_in. Qed.
+Print Assumptions C07_reader_lines.
+
+(* blanks in front go, a TAB in front stays, white space at the end stays (blank, TAB, NBSP), CRLF
+   loses the CR, short lines and comments are skipped, TAB + '#' is a record line *)
+Example C07_reader_example :
+  read_file [32; 32; 43; 97; 44; 49; 32; 9; 13; 10;  9; 43; 97; 44; 49; 10;  35; 120; 10; 32; 35; 120; 10;
+             9; 35; 120; 10;  32; 32; 10; 9; 10; 90; 10; 13; 10;  39; 120; 44; 194; 160]
+  = [[43; 97; 44; 49; 32; 9]; [9; 43; 97; 44; 49]; [9; 35; 120]; [39; 120; 44; 194; 160]].
+Proof. exact read_file_example. Qed.
+Print Assumptions C07_reader_example.
